@@ -59,6 +59,12 @@ def case(draw):
         o['watermark'] = draw(st.sampled_from([0, 64, 300, 100000]))
     if draw(st.integers(0, 3)) == 0:
         o['format'] = draw(st.sampled_from(['bz2', 'xz', 'lzma', 'gz']))
+    # the update may run with other compression settings than the create
+    o2 = None
+    if draw(st.integers(0, 2)) == 0:
+        o2 = {'watermark': draw(st.sampled_from([None, 0, 64, 100000])),
+              'format': draw(st.sampled_from([None, 'gz', 'bz2', 'xz',
+                                              'lzma']))}
     edits = draw(repogen.repo_edits(r))
     pk = sorted({os.path.dirname(p) for p in r['files']
                  if p.endswith('.ebuild') and p.count('/') == 2})
@@ -66,6 +72,7 @@ def case(draw):
     return {'repo': r, 'opts': o, 'edits': edits,
             'forced_subdir': draw(st.sampled_from(pk))
             if pk and draw(st.booleans()) else None,
+            'opts2': o2,
             # harness-owned directory listing order (neighbouring names
             # such as foo / foo-bin are met in either order)
             'scandir': draw(st.sampled_from([None, 'sorted', 'reversed',
@@ -307,6 +314,9 @@ def run_case_ordered(desc):
             snap0 = fsnap.snapshot(root)
             repogen.apply_edits(root, desc['edits'])
             tree = list_tree(root)
+            if desc.get('opts2'):
+                o = dict(o, **desc['opts2'])
+                classes.append('update-with-other-compression-options')
             oc, records, _ = gem.cli(['update'] + cli_args(o) + [root])
             what = (f'`gemato update {" ".join(cli_args(o))}` after '
                     f'{desc["edits"]!r}')
